@@ -86,10 +86,10 @@ def r1(p, rep):
         calls, fn_names, code_names, bound = c03.compiled_function_calls(p, f)
         targs = None
         for n in walk_no_nested(f.node):
-            if isinstance(n, ast.Assign) and isinstance(n.value, ast.Call) and norm(n.value.func).endswith("_split_tensors") and isinstance(n.targets[0], ast.Tuple):
+            if isinstance(n, ast.Assign) and isinstance(n.value, ast.Call) and norm(n.value.func) == c03.splitter(p)[1] and isinstance(n.targets[0], ast.Tuple):
                 targs = n.targets[0].elts[-1].id
         if targs is None:
-            raise AnalysisError(f"unrecognised idiom: {f.qualname} does not unpack _split_tensors(...)")
+            raise AnalysisError(f"unrecognised idiom: {f.qualname} does not unpack the result of the argument splitter")
         compiled_params = {}
         for c in calls:
             hh = getattr(c, "_helper", None)
